@@ -12,16 +12,24 @@ def run(res, only=None):
     cases = os.path.join(wd, "interp.out")
     res.add_tlc(core.run_tlc("MC_C12", res.tier, cases, workers=8, extra_constants={"Seed": res.seed % 97}))
     core.replay_bin(res, "interp", cases, cfgs, expect_ops=["lerp", "qslerp", "qtowards", "vtowards", "vslerp", "arc", "ortho", "move", "clamp"])
+    # code -> spec, relational, on random inputs (Trace_Rel.tla, exact dyadic arithmetic in TLC): move_towards (target once within reach, else a
+    # step of length d towards it), slerp at s = j/8 between random unit quaternions 0.002 .. 2.9 rad apart (Chebyshev relations: the angle from
+    # the start is j/8 of the total), rotate_towards beyond the remaining angle (ends on the target, finite), angles between parallel vectors
+    core.record_and_validate(res, "rel", [c for c in cfgs if c in ("sse2", "scalar", "coresimd", "libm", "fma")], draws=3 if res.tier == "quick" else 60,
+                             module="Trace_Rel", chunks=3 if res.tier == "quick" else 8, expect_kinds=("rel",),
+                             ops=["move_towards", "slerp8", "rot_reach", "angle_parallel"])
     res.rule = ("exact (Ieee): vector lerp/midpoint and FloatExt lerp/inverse_lerp/remap over 12x12 dyadic operands (incl. MAX, subnormal, 2^100) "
                 "x s in {0,1/4,1/2,3/4,1,-1/2,2} (end points exact); exact rotations: Quat/DQuat slerp, lerp, rotate_towards between all pairs "
                 "of rotations by multiples of 90 degrees about each axis (q vs -q, shorter arc; half-turn-apart pairs only at their ends), "
                 "Vec2/Vec3/Vec3A rotate_towards and slerp between the 8 planar lattice directions (different lengths, steps 0..beyond, negative "
                 "steps) in all three coordinate planes; relational: from_rotation_arc/_colinear/_2d over all 18x18 lattice direction pairs "
                 "(parallel, anti-parallel, orthogonal included), any_orthogonal/orthonormal vector/pair over the lattice sphere incl. z=-1, "
-                "move_towards along Pythagorean segments (steps 0, 1, beyond, negative), clamp_length/_min/_max on Pythagorean vectors.")
+                "move_towards along Pythagorean segments (steps 0, 1, beyond, negative), clamp_length/_min/_max on Pythagorean vectors.  Code -> spec on "
+                "random inputs: the relations of Trace_Rel.tla (move_towards, slerp at j/8 through Chebyshev polynomials of the cosines, rotate_towards "
+                "within reach, angle of parallel vectors) decided exactly by TLC per build.")
     res.assumptions = ["tolerance 2e-4 (f32; acos_approx and the SSE2 sine polynomial) / 1e-9 (f64) for angle-derived results, 4e-5 / 4e-12 otherwise",
-                       "angle = s*theta between lattice arcs is not decided; the near-parallel thresholds are exercised only at lattice inputs"]
+                       "slerp's angle = s*theta is decided at s = j/8 for quaternions (not for vector slerp between lattice arcs)"]
 
 
 def replay(res, path, only=None):
-    return core.generic_replay(res, path, "interp", env_keys=())
+    return core.replay_dispatch(res, path, "interp", env_keys=())
